@@ -99,6 +99,52 @@ pub fn tapped_build(log: &mut Log, items: &[Kv], set: bool, geo: Option<(usize, 
     (bytes, nodes, evictions)
 }
 
+/// The same, with the items reaching one builder in segments: single calls, `extend_iter` batches
+/// (from a vector: the size hint is exact) and `extend_stream` batches, in random order and sizes.
+pub fn tapped_build_mixed(log: &mut Log, items: &[Kv], set: bool, geo: Option<(usize, usize)>, r: &mut rand::rngs::StdRng) {
+    use crate::api::VecStream;
+    verif::set_geometry(geo);
+    verif::start_tap();
+    let mut b = Builder::memory();
+    let cells = { let (r, c) = verif::last_geometry(); r * c };
+    let items: Vec<Kv> = items.iter().map(|(k, v)| (k.clone(), if set { 0 } else { *v })).collect();
+    let mut i = 0;
+    let mut plan = vec![];
+    while i < items.len() {
+        let n = 1 + r.gen_range(0, std::cmp::max(1, items.len() * 2 / 3));
+        let seg = &items[i..std::cmp::min(items.len(), i + n)];
+        let how = r.gen_range(0, 3);
+        plan.push(format!("{}x{}", how, seg.len()));
+        match how {
+            0 => {
+                for (k, v) in seg {
+                    if set {
+                        b.add(k).unwrap();
+                    } else {
+                        b.insert(k, *v).unwrap();
+                    }
+                }
+            }
+            1 => b.extend_iter(seg.to_vec().into_iter().map(|(k, v)| (k, fst::raw::Output::new(v)))).unwrap(),
+            _ => b.extend_stream(VecStream { items: seg.to_vec(), i: 0 }).unwrap(),
+        }
+        i += n;
+    }
+    b.into_inner().unwrap();
+    let evictions = verif::evictions();
+    let evs = verif::stop_tap();
+    verif::set_geometry(None);
+    let nodes = evs.iter().filter(|e| e.kind == 2).count();
+    log.ev(json!({"ev": "TNew", "cells": jn(std::cmp::min(cells, 1 << 30)), "set": set, "geo": format!("{:?}", geo), "plan": plan.join(" ")}));
+    for e in &evs {
+        log.ev(json!({"ev": "Compile", "node": jnode(e), "kind": e.kind, "addr": jn(e.addr), "start": jn(e.start), "evicted": e.evicted}));
+    }
+    let small = items.len() <= 120;
+    let model: Vec<Kv> = if small { items.to_vec() } else { vec![] };
+    // (a raw builder fed zeros through insert is a set of keys all the same)
+    log.ev(json!({"ev": "TDone", "evictions": jn(evictions as usize), "nodes": nodes, "set": set, "small": small, "items": jitems(&model)}));
+}
+
 pub fn c12(log: &mut Log, seed: u64, tier: &str) {
     let mut r = rng(seed, 12);
     // (1) validation of the transcribed oracle against the specification
@@ -125,6 +171,10 @@ pub fn c12(log: &mut Log, seed: u64, tier: &str) {
         tapped_build(log, &zero, true, Some((4096, 4)), true);
         let items = assign(keys.clone(), *pick(&mut r, VAL_MODES), &mut r);
         tapped_build(log, &items, false, *pick(&mut r, geos), true);
+        // ... and with the keys arriving in segments through the three ways of filling one builder
+        let mixed_geos: &[Option<(usize, usize)>] = &[None, Some((4096, 4)), Some((256, 2)), Some((64, 2)), Some((1024, 1))];
+        tapped_build_mixed(log, &zero, true, *pick(&mut r, mixed_geos), &mut r);
+        tapped_build_mixed(log, &items, false, *pick(&mut r, mixed_geos), &mut r);
     }
     // every subset of the two-level universe as a set with a sufficient cache and with tiny ones
     let stems: &[u8] = b"123";
